@@ -29,3 +29,6 @@ import GridVerif.Props.C18.Gen
 #print axioms GridVerif.C18.gen_integrate_nonvec_eq
 #print axioms GridVerif.C18.gen_integrate_chunk_independent
 #print axioms GridVerif.C18.gen_integrate_vec_eq
+#print axioms GridVerif.C18.gen_moments_not_implemented
+#print axioms GridVerif.C18.gen_moments_defaults
+#print axioms GridVerif.C18.gen_get_localgrid_not_implemented
